@@ -35,6 +35,8 @@ var scalarKeys = []Key{
 var otherKeys = []Key{
 	{"[1]", false, ""}, {"[1, 2]", false, ""}, {"[true]", false, ""}, {"[]", false, ""}, {"{a: 1}", false, ""}, {"{}", false, ""}, {"[[1]]", false, ""}, {"(1:2)", false, ""}, {`["a"]`, false, ""},
 	{"[1.0]", false, ""}, {"{a: 1, b: 2}", false, ""}, {"%{1: 2}", false, ""}, {"[nil]", false, ""},
+	// arrays that are == although their elements are spelled with different types, and others that only look alike
+	{"[0.0]", false, ""}, {"[-0.0]", false, ""}, {"[false]", false, ""}, {"[0]", false, ""}, {"[1, 2.0]", false, ""}, {"[[true]]", false, ""}, {`["1"]`, false, ""}, {"{a: 1.0}", false, ""}, {"{a: true}", false, ""},
 }
 
 type Pair struct {
@@ -53,6 +55,7 @@ type Case struct {
 	Pairs []Pair    `json:"pairs"`
 	Ops   []Operand `json:"ops"`
 	Vars  bool      `json:"vars,omitempty"` // the ** operands are bound to variables first and re-inspected afterwards
+	Via   string    `json:"via,omitempty"`  // map kind: "" literal with ** operands | digest | listchain (the operands' pairs are merged by Map#digest / a list chain with a map chain argument)
 	Got   string    `json:"got,omitempty"`
 	Want  string    `json:"want,omitempty"`
 }
@@ -91,7 +94,21 @@ func (c Case) describeOp(i int) string {
 	return strings.ReplaceAll("[V.repr, V.S, V.keys, V.values, V.items, V.len, %{**V}.repr, V.A]", "V", v)
 }
 
+func pairList(ps []Pair) string {
+	s := []string{}
+	for _, p := range ps {
+		s = append(s, fmt.Sprintf("[%s, %d]", p.K.Src, p.V))
+	}
+	return "[" + strings.Join(s, ", ") + "]"
+}
+
 func (c Case) source() string {
+	switch c.Via {
+	case "digest":
+		return litMap(c.Pairs, nil) + ".digest(" + pairList(c.Ops[0].Pairs) + ")"
+	case "listchain":
+		return pairList(c.Ops[0].Pairs) + "@(" + litMap(c.Pairs, nil) + "){|p| p}"
+	}
 	extra := []string{}
 	for i := range c.Ops {
 		if c.Vars {
@@ -291,7 +308,18 @@ func judge(c *Case) (sig, detail string) {
 					present = true
 				}
 			}
-			if present || k.Class == "sa" && false {
+			if present {
+				if !k.Scalar {
+					// a non-scalar key is found through every spelling that is == to the stored one
+					for _, e := range all {
+						if !e.k.Scalar && w.equal(k.Src, e.k.Src) {
+							if got := w.ins("m[" + k.Src + "]"); got != fmt.Sprint(e.v) {
+								return fail("index-by-equal-key", "m["+k.Src+"] = "+got+" (stored under "+e.k.Src+")", fmt.Sprint(e.v))
+							}
+							break
+						}
+					}
+				}
 				continue
 			}
 			if strings.HasPrefix(k.Class, "s") {
@@ -506,6 +534,13 @@ func genCase(t *rapid.T) Case {
 		return c
 	}
 	c.Pairs = genMapKeys(t, 12, 100, "own")
+	if rapid.IntRange(0, 5).Draw(t, "via digest") == 0 {
+		// the second batch of pairs arrives through Map#digest (what a list chain with a map chain argument calls)
+		c.Via = rapid.SampledFrom([]string{"digest", "listchain"}).Draw(t, "via")
+		c.Vars = false
+		c.Ops = []Operand{{Pairs: genMapKeys(t, 6, 200, "dig")}}
+		return c
+	}
 	for i := 0; i < nops; i++ {
 		if rapid.IntRange(0, 3).Draw(t, "objop") == 0 {
 			c.Ops = append(c.Ops, Operand{IsObj: true, Pairs: genPairs(t, objKeys, 4, 200+100*i, fmt.Sprintf("op%d", i))})
